@@ -13,6 +13,7 @@ mod derive;
 mod drip;
 mod duts;
 mod eos;
+mod filesink;
 mod formats;
 mod graphs;
 mod hdlc;
@@ -89,6 +90,12 @@ fn main() {
         "c13" => hdlcprop::main(&opts),
         "c14" => formats::main(&opts),
         "c16" => sources::main(&opts),
+        "c17" => filesink::main(&opts),
+        "c17-child" => {
+            let sub = opts.extra.first().cloned().unwrap_or_default();
+            let rest: Vec<String> = opts.extra[1..].to_vec();
+            std::process::exit(if sub == "modes" { filesink::modes_child(&rest) } else { filesink::crash_child(&rest) });
+        }
         "c18" => maps::main(&opts),
         "c18-child" => {
             let mode = opts.extra.first().cloned().unwrap_or_default();
